@@ -877,7 +877,7 @@ def r10(ctx, R):
     document."""
     from .c06 import searcher
 
-    R.rule("C09.R10", "occurrence ranges stay with their document: items built from the per-file search carry the URI of the file they were found in, and URI-less items (documentHighlight) are restricted to the requested file", floor=2, confirmed=3)
+    R.rule("C09.R10", "occurrence ranges stay with their document: items built from the per-file search carry the URI of the file they were found in, and URI-less items (documentHighlight) are restricted to the requested file", floor=1, confirmed=3)
     g, _hs = searcher(ctx)
     t = dispatch_table(ctx)
     hq = sorted(t.get("textDocument/documentHighlight", ()))
